@@ -437,3 +437,42 @@ def write_sites(module):
                     text=ast.unparse(node)[:90], attr=attr,
                     module=module.name, closure=closure))
     return out
+
+
+def self_attr_stores(fdef):
+    """{attribute: [value nodes]} for the stores a function makes on its
+    `self`: `self.a = v`, `self.a = self.b = v`, `setattr(self, 'a', v)`
+    and `for n in ('a', 'b'): setattr(self, n, v)`"""
+    out = {}
+    loops = {}      # loop variable -> constant strings it ranges over
+    for n in ast.walk(fdef):
+        if isinstance(n, ast.For) and isinstance(n.target, ast.Name) and \
+                isinstance(n.iter, (ast.Tuple, ast.List, ast.Set)) and all(
+                    isinstance(e, ast.Constant) and isinstance(e.value, str)
+                    for e in n.iter.elts):
+            loops[n.target.id] = [e.value for e in n.iter.elts]
+    for n in ast.walk(fdef):
+        if isinstance(n, ast.Assign):
+            for t in n.targets:
+                for tt in (t.elts if isinstance(t, (ast.Tuple, ast.List))
+                           else [t]):
+                    if isinstance(tt, ast.Attribute) and isinstance(
+                            tt.value, ast.Name) and tt.value.id == 'self':
+                        out.setdefault(tt.attr, []).append(
+                            n.value if tt is t else None)
+        elif isinstance(n, (ast.AugAssign, ast.AnnAssign)) and isinstance(
+                n.target, ast.Attribute) and isinstance(
+                n.target.value, ast.Name) and n.target.value.id == 'self':
+            out.setdefault(n.target.attr, []).append(
+                getattr(n, 'value', None))
+        elif isinstance(n, ast.Call) and isinstance(n.func, ast.Name) and \
+                n.func.id == 'setattr' and len(n.args) == 3 and isinstance(
+                n.args[0], ast.Name) and n.args[0].id == 'self':
+            key = n.args[1]
+            if isinstance(key, ast.Constant) and isinstance(key.value, str):
+                out.setdefault(key.value, []).append(n.args[2])
+            elif isinstance(key, ast.Name) and key.id in loops:
+                for name in loops[key.id]:
+                    out.setdefault(name, []).append(n.args[2])
+    return out
+
